@@ -832,7 +832,10 @@ func (up4 *UP4) addInternalApplicationIDAndGetP4rtEntry(pdr pdr) (*p4.TableEntry
 	return applicationsEntry, up4Application.id, nil
 }
 
-func (up4 *UP4) removeInternalApplicationIDAndGetP4rtEntry(pdr pdr) (*p4.TableEntry, uint8) {
+// removeInternalApplicationIDAndGetP4rtEntry drops the PDR's reference to its application filter.
+// If the filter is left without users it returns the table entry to delete and a function that
+// releases the application ID, to be called once the entry has actually been deleted.
+func (up4 *UP4) removeInternalApplicationIDAndGetP4rtEntry(pdr pdr) (*p4.TableEntry, uint8, func()) {
 	up4.applicationMu.Lock()
 	defer up4.applicationMu.Unlock()
 
@@ -840,7 +843,7 @@ func (up4 *UP4) removeInternalApplicationIDAndGetP4rtEntry(pdr pdr) (*p4.TableEn
 
 	internalApp, exists := up4.applicationIDs[appFilter]
 	if !exists {
-		return nil, 0
+		return nil, 0, nil
 	}
 
 	internalApp.usedBy.Remove(internalAppReference{
@@ -848,17 +851,25 @@ func (up4 *UP4) removeInternalApplicationIDAndGetP4rtEntry(pdr pdr) (*p4.TableEn
 	})
 
 	if internalApp.usedBy.Cardinality() != 0 {
-		return nil, internalApp.id
+		return nil, internalApp.id, nil
 	}
 
 	applicationsEntry, err := up4.p4RtTranslator.BuildApplicationsTableEntry(pdr, up4.conf.SliceID, internalApp.id)
 	if err != nil {
-		return nil, internalApp.id
+		return nil, internalApp.id, nil
 	}
 
-	up4.unsafeReleaseInternalApplicationID(appFilter)
+	release := func() {
+		up4.applicationMu.Lock()
+		defer up4.applicationMu.Unlock()
 
-	return applicationsEntry, internalApp.id
+		// still unused? (the filter may have been taken into use again meanwhile)
+		if app, ok := up4.applicationIDs[appFilter]; ok && app.usedBy.Cardinality() == 0 {
+			up4.unsafeReleaseInternalApplicationID(appFilter)
+		}
+	}
+
+	return applicationsEntry, internalApp.id, release
 }
 
 func (up4 *UP4) allocateAppMeterCellID() (uint32, error) {
@@ -1313,6 +1324,9 @@ func (up4 *UP4) modifyUP4ForwardingConfiguration(pdrs []pdr, allFARs []far, qers
 
 		// as a default value is installed if no application filtering rule exists
 		var applicationID uint8 = DefaultApplicationID
+		// set when the applications entry of this PDR is deleted in this batch:
+		// its ID is free only once the delete has been written
+		var releaseAppID func()
 
 		if !pdr.IsAppFilterEmpty() {
 			if methodType != p4.Update_DELETE {
@@ -1324,12 +1338,13 @@ func (up4 *UP4) modifyUP4ForwardingConfiguration(pdrs []pdr, allFARs []far, qers
 					applicationID = appID
 				}
 			} else {
-				entry, appID := up4.removeInternalApplicationIDAndGetP4rtEntry(pdr)
+				entry, appID, release := up4.removeInternalApplicationIDAndGetP4rtEntry(pdr)
 				if entry != nil {
 					entriesToApply = append(entriesToApply, entry)
 				}
 
 				applicationID = appID
+				releaseAppID = release
 			}
 		}
 
@@ -1388,6 +1403,10 @@ func (up4 *UP4) modifyUP4ForwardingConfiguration(pdrs []pdr, allFARs []far, qers
 
 				return ErrOperationFailedWithReason("applying table entries to UP4", p4Error.Error())
 			}
+		}
+
+		if releaseAppID != nil {
+			releaseAppID()
 		}
 	}
 
